@@ -4,6 +4,7 @@ import (
 	"bytes"
 	"fmt"
 	"sort"
+	"strings"
 	"time"
 
 	"go.nanomsg.org/mangos/v3"
@@ -47,6 +48,14 @@ func runMeshScenario(c *Ctx, fl meshFlavor, nops int) {
 				return
 			}
 		}
+	}
+	// the two queue lengths are different options: a peer's send queue has the WRITEQ-LEN in force when it attached
+	smallReadQ := false
+	if c.R.Intn(2) == 0 {
+		r, w := c.R.Pick(0, 1, 2), c.R.Pick(1, 3, 128)
+		smallReadQ = true
+		e.SetOpt(0, mangos.OptionReadQLen, fmt.Sprint(r), r)
+		e.SetOpt(0, mangos.OptionWriteQLen, fmt.Sprint(w), w)
 	}
 	addPipe()
 	addPipe()
@@ -124,7 +133,9 @@ func runMeshScenario(c *Ctx, fl meshFlavor, nops int) {
 			e.Inject(p, body)
 			fw := map[int]int{}
 			for _, ev := range splitEvents(lastObs(e)) {
-				if ev.kind != "tx" {
+				if ev.kind != "tx" || (smallReadQ && fl.isStar) {
+					// with a short receive queue a receiver may be holding an earlier message: what is forwarded now
+					// need not be what was injected now (the machine, not this oracle, judges those scenarios)
 					continue
 				}
 				fw[ev.pipe]++
@@ -139,7 +150,7 @@ func runMeshScenario(c *Ctx, fl meshFlavor, nops int) {
 					c.Violate(fmt.Sprintf("%s: forwarded copy has header %x body %x; expected hop byte %d and body %x", fl.name, ev.hdr, ev.msg, hop+1, payload), e.Replay())
 				}
 			}
-			if fl.isStar && payload != nil && hop < 8 {
+			if fl.isStar && payload != nil && hop < 8 && !smallReadQ {
 				for _, q := range targets {
 					if q != p && !everHeld[q] && fw[q] != 1 {
 						c.Violate(fmt.Sprintf("%s: message from pipe %d (hop %d) was forwarded %d times to peer pipe %d", fl.name, p, hop, fw[q], q), e.Replay())
@@ -177,8 +188,15 @@ func runMeshScenario(c *Ctx, fl meshFlavor, nops int) {
 				rmFromList(p)
 			}
 		default:
-			n := c.R.Pick(0, 1, 2)
-			e.SetOpt(0, mangos.OptionWriteQLen, fmt.Sprint(n), n)
+			if strings.Contains(fl.name, "star") && c.R.Intn(2) == 0 {
+				// STAR: the receive queue may be replaced at any moment, also while receivers are holding messages for it
+				n := c.R.Pick(0, 1, 2, 128)
+				smallReadQ = true
+				e.SetOpt(0, mangos.OptionReadQLen, fmt.Sprint(n), n)
+			} else {
+				n := c.R.Pick(0, 1, 2)
+				e.SetOpt(0, mangos.OptionWriteQLen, fmt.Sprint(n), n)
+			}
 		}
 	}
 	e.Finish()
